@@ -53,6 +53,27 @@ def coverOK (rev : Bool) (exts : List (List Nat)) (children : List (List Nat)) :
     let got := children.getD i []
     got.all (want.contains ·) && want.all (got.contains ·)
 
+/-- all elements strictly below `i` (strict sub-extents) within a list of extents -/
+def strictDown (exts : List (List Nat)) (i : Nat) : List Nat :=
+  (List.range exts.length).filter fun j => ssubset (exts.getD j []) (exts.getD i [])
+
+/-- all elements strictly above `i` (strict super-extents) -/
+def strictUp (exts : List (List Nat)) (i : Nat) : List Nat :=
+  (List.range exts.length).filter fun j => ssubset (exts.getD i []) (exts.getD j [])
+
+/-- checker: `rel[i]` (as a set) is `f exts i`, for every `i` -/
+def relOK (f : List (List Nat) → Nat → List Nat) (exts : List (List Nat)) (rel : List (List Nat)) : Bool :=
+  rel.length == exts.length &&
+  (List.range exts.length).all fun i =>
+    let want := f exts i
+    let got := rel.getD i []
+    got.all (want.contains ·) && want.all (got.contains ·)
+
+/-- monotone concepts computed through the complemented table (cheap for large tables):
+    `(G \ C, B)` for every concept `(C, B)` of the complement -/
+def monoConceptsFast (t : Table) : List (List Nat × List Nat) :=
+  (allConcepts (complement t)).map fun p => (compl t.height p.1, p.2)
+
 /-- checker: two lists of pairs are equal as sets -/
 def sameSet (xs ys : List (List Nat × List Nat)) : Bool :=
   xs.all (ys.contains ·) && ys.all (xs.contains ·)
